@@ -249,6 +249,67 @@ def ob_roundtrip(family, w=8, tier="quick"):
     return res
 
 
+def ob_symbol_history(tier="quick"):
+    """the abstraction of a Z3 symbol depends on the symbol alone, not on what was abstracted before: for every ordered pair of sorts
+    (bit-vectors of 1, 8, 16, 64 bits, Bool, Float32, Float64) a symbol NAMED a is abstracted in the first sort, kept alive, then an
+    expression over a symbol of the same name in the second sort is abstracted: every node of the result has the sort / width of the Z3 term
+    it stands for (C05), and converts back to an equivalent term (C09).  Translation validation per pair, on the real Z3."""
+    import hashlib, os
+    import claripy
+    src = open(os.path.join(loader.REPO, REL), "rb").read()
+    loader.SOURCES[REL] = hashlib.sha256(src).hexdigest()
+    bz, ctx = _ctx()
+    res = paths.Result()
+    sorts = [("bv1", z3.BitVecSort(1, ctx)), ("bv8", z3.BitVecSort(8, ctx)), ("bv16", z3.BitVecSort(16, ctx)), ("bv64", z3.BitVecSort(64, ctx)),
+             ("bool", z3.BoolSort(ctx)), ("fp32", z3.Float32(ctx)), ("fp64", z3.Float64(ctx))]
+
+    def term(srt):
+        a = z3.Const("a", srt)
+        if z3.is_bv_sort(srt):
+            return a, a * 3 + 12 == a
+        if srt.kind() == z3.Z3_BOOL_SORT:
+            return a, z3.And(a, z3.Bool("b_other", ctx))
+        return a, z3.fpLT(a, z3.fpAbs(a))
+
+    def width(srt):
+        return srt.size() if z3.is_bv_sort(srt) else None if srt.kind() == z3.Z3_BOOL_SORT else srt.ebits() + srt.sbits()
+    for (n1, s1) in sorts:
+        for (n2, s2) in sorts:
+            res.paths += 1
+            res.vcs += 1
+            label = f"z3rt.symbol[{n1}-then-{n2}]"
+            try:
+                bz.downsize()
+                a1, _ = term(s1)
+                first = bz._abstract(a1)            # kept alive
+                a2, t2 = term(s2)
+                r = bz._abstract(t2)
+                leaves = [x for x in r.leaf_asts() if x.op in ("BVS", "BoolS", "FPS") and x.args[0] == "a"]
+                bad = [x for x in leaves if getattr(x, "length", None) != width(s2)]
+                back = bz.convert(r)
+            except Exception as e:  # noqa
+                f = paths.Failure(label + "/raises", "ensures", {"first": n1, "second": n2}, f"{type(e).__name__}: {e}", [])
+                f.replay = {"reproduced": True, "text": f"abstracting a symbol a of sort {n1}, then {t2}: {type(e).__name__}: {e}"}
+                res.failures.append(f)
+                continue
+            if bad or not leaves:
+                f = paths.Failure(label + "/leaf-has-the-sort-of-its-symbol", "ensures", {"first": n1, "second": n2},
+                                  f"after abstracting a symbol a of sort {n1}, {t2} abstracts to {r!r} whose leaf {bad[:1] or leaves!r} does not have the {n2} symbol's width", [])
+                f.replay = {"reproduced": True, "text": f.detail}
+                res.failures.append(f)
+                continue
+            verdict, info = _equiv(t2, back, ctx, 20000)
+            if verdict not in ("ok", "unknown"):
+                f = paths.Failure(label + "/meaning", "ensures", {"first": n1, "second": n2}, f"round trip of {t2} after the history is not equivalent: {verdict} {info}", [])
+                f.replay = {"reproduced": True, "text": f.detail}
+                res.failures.append(f)
+            del first
+    if res.failures:
+        res.status = "violated"
+    res.samples = [{"pairs": len(sorts) ** 2}]
+    return res
+
+
 def ob_totality(tier="quick"):
     """every operator the translation can emit has op_map/op_type_map entries for the kind it produces, also
     after z3.simplify (the kinds actually seen are harvested from a fixed family of translated expressions)"""
